@@ -56,6 +56,25 @@ ComponentRenderer = Callable[[Optional[List[str]]], Tuple[str, Dict[str, List[st
 component_renderer_cache: Dict[str, Tuple[ComponentRenderer, str]] = {}
 child_component_attrs: Dict[str, List[str]] = {}
 
+
+# When rendering of a component fails, the entries that the component (and, if it is the root component,
+# all the components below it that have been prepared so far) has in the render-time caches would never
+# be removed, because that normally happens only when the component's deferred rendering finishes.
+def cleanup_failed_render(render_id: str, unregister_provide_reference: Callable[[str], None]) -> None:
+    component_ctx = component_context_cache.get(render_id, None)
+    render_ids = [render_id]
+
+    # Root component - The rest of the component tree is never going to be rendered
+    if component_ctx is not None and len(component_ctx.component_path) == 1:
+        render_ids.extend(component_ctx.post_render_callbacks.keys())
+
+    for curr_id in render_ids:
+        component_context_cache.pop(curr_id, None)
+        component_renderer_cache.pop(curr_id, None)
+        child_component_attrs.pop(curr_id, None)
+        unregister_provide_reference(curr_id)
+
+
 nested_comp_pattern = re.compile(r'<template [^>]*?djc-render-id="\w{6}"[^>]*?></template>')
 render_id_pattern = re.compile(r'djc-render-id="(?P<render_id>\w{6})"')
 
